@@ -6,7 +6,7 @@ EXTENDS Aggregator, AggAlphabet
 Cmds == <<
   C("cpp_class", <<"@">>), C("cpp_class", <<"@", "Base1", "Base2">>), C("cpp_end_class", <<>>),
   C("cpp_attr", <<"C", "@">>), C("cpp_attr", <<"C", "@", "42">>),
-  C("cpp_member", <<"@", "C">>), C("cpp_member", <<"@", "C", "int", "args">>), C("cpp_member", <<"@", "C", "int", "str">>),
+  C("cpp_member", <<"@", "C">>), C("cpp_member", <<"dupm", "C", "int">>), C("cpp_member", <<"@", "C", "int", "args">>), C("cpp_member", <<"@", "C", "int", "str">>),
   C("cpp_constructor", <<"@", "C", "int">>),
   C("function", <<"${@}", "_p_self">>), C("function", <<"${@}", "self", "_p_a", "b">>),
   C("macro", <<"${@}", "self", "a">>),
